@@ -321,6 +321,10 @@ func (g *Gen) Step() {
 		case 4:
 			// spellings of the one whitelisted field name
 			args.Extra = map[string]string{"EMAIL": "admin@x.com", "Email": "root@x.com", "eMail": "x@y.zz"}
+		case 6:
+			// white space around an otherwise good password (the shipped rules allow none; nothing trims it)
+			args.PW = []string{pw + " ", " " + pw, pw + "\n", "\t" + pw + " "}[g.R.Intn(4)]
+			args.PW2 = args.PW
 		case 5:
 			args.NoPW = true
 			args.PW = ""
